@@ -22,7 +22,6 @@ package ont_test
 import (
 	"bytes"
 	"fmt"
-	"os"
 	"math/big"
 	"sort"
 	"strings"
@@ -1174,7 +1173,7 @@ func (y *c06sys) xsConfig(rootLvl int, depth int) xs.Config {
 			key := s.key()
 			if !y.probed[key] {
 				y.probed[key] = true
-				if y.r.Mine(int(c06hash(key)%1000003)) && os.Getenv("VERIF_C06_DRY") == "" {
+				if y.r.Mine(int(c06hash(key)%1000003)) {
 					y.r.StateKey(key)
 					s.probeAll()
 				}
@@ -1219,7 +1218,7 @@ func TestVerif_C06(t *testing.T) {
 		plans["solo-rules"] = []plan{{0, 1, false}, {1, 1, false}}
 		r.Bound("accounts A,B,C (+ONT contract as ONG holder); polaris-rules: wide constructive alphabet depth 2 from block-time level genesis+1, core alphabet depth 2 from deadline+1, depth 1 from genesis and from the deadline (ticks to later levels are events); solo-rules: core depth 1 from both levels; + 1 probe step (sharp probe alphabet) in every state")
 	} else {
-		plans["polaris-rules"] = []plan{{1, 3, true}, {3, 3, true}, {0, 2, true}, {2, 2, true}, {0, 3, false}, {2, 3, false}}
+		plans["polaris-rules"] = []plan{{0, 2, true}, {1, 2, true}, {2, 2, true}, {3, 2, true}, {0, 3, false}, {1, 3, false}, {2, 3, false}, {3, 3, false}, {1, 3, true}, {3, 3, true}} // cheapest first: a deadline cuts only the deepest
 		plans["solo-rules"] = []plan{{0, 1, true}, {1, 1, true}, {0, 2, false}, {1, 2, false}}
 		r.Bound("accounts A,B,C (+ONT contract as ONG holder); polaris-rules: wide constructive alphabet depth 3 from block-time levels genesis+1 and deadline+1, wide depth 2 and core depth 3 from genesis and from the deadline (ticks to later levels are events); solo-rules: wide depth 1, core depth 2; + 1 probe step (full-product probe alphabet) in every state")
 	}
@@ -1282,7 +1281,6 @@ func TestVerif_C06(t *testing.T) {
 				r.Trace(-st.Transitions)
 			}
 			r.Set(fmt.Sprintf("bfs-states %s@L%d depth=%d wide=%v", cfg.name, lvl, pl.depth, pl.wide), fmt.Sprint(st.States, " per depth ", st.PerDepth))
-			fmt.Printf("C06 bfs %s@L%d depth=%d wide=%v: states %d per depth %v transitions %d\n", cfg.name, lvl, pl.depth, pl.wide, st.States, st.PerDepth, st.Transitions)
 		}
 		r.Trans(y.nprobes)
 		r.Trace(y.nprobes)
